@@ -192,7 +192,7 @@ def unit_stage(res, tier):
     rng = random.Random(common.seed() * 1000003 + 3434)
     exe = impl()
     runner = coq.build_runner("pagelog")
-    n = 3000 if tier == "quick" else 120000
+    n = 2500 if tier == "quick" else 120000
     corpus = std.load_corpus(PID)
     cases = corpus + gen_unit(rng, n)
     impl_out, model_out, dis = std.corr_stage(res, cases, exe, runner, kind_fn=lambda c, o: "unit:" + ("ok" if "qs=" in o else "x"),
@@ -473,7 +473,7 @@ def run(res, tier):
         std.run_lab(res, PID, tier, area="pagelog", gens=["bytemaps", "errmacros", "logquote"], gen_scenarios=gen_scenarios,
                     run_impl=run_impl, to_case=to_case, oracle=oracle,
                     corr_name="PagelogModel (log_record) vs the running squid's access log",
-                    n_quick=160, n_thorough=3000, seed_salt=34,
+                    n_quick=120, n_thorough=3000, seed_salt=34,
                     kind_fn=lambda s, o: "e2e:" + ("user" if s["user"] else "anon") + ":" + o.split(" ")[0],
                     nontrivial_fn=lambda s, o: bool(re.search(r"[^A-Za-z0-9]", s["h"] + (s["user"] or ""))))
     finally:
